@@ -2,14 +2,17 @@
 to measure false alarms.  usage: python3 lib/mkneutral.py Cxx  (creates /tmp/neu_Cxx worktree, prints the prompt)"""
 import json,sys,subprocess,os
 pid=sys.argv[1]
+rnd=sys.argv[2] if len(sys.argv)>2 else ''
 for l in open('/verif/properties.jsonl'):
     p=json.loads(l)
     if p['id']==pid: break
-wt='/tmp/neu_%s'%pid
+wt='/tmp/neu%s_%s'%(rnd,pid)
 subprocess.run(['git','-C','/repo','worktree','remove','--force',wt],stdout=subprocess.DEVNULL,stderr=subprocess.DEVNULL)
 subprocess.run(['git','-C','/repo','worktree','add','--detach',wt,'HEAD'],check=True,stdout=subprocess.DEVNULL,stderr=subprocess.DEVNULL)
-os.makedirs('/tmp/neu_%s_out'%pid,exist_ok=True)
-print(f"""You are helping to measure the FALSE-ALARM rate of a verification suite for a Go repository (veesix-networks/osvbng, an open-source virtual Broadband Network Gateway). You have your own scratch git worktree of the repository at {wt} (work ONLY there and in /tmp/neu_{pid}_out; never touch /repo or /verif, and do not read anything under /verif).
+os.makedirs('/tmp/neu%s_%s_out'%(rnd,pid),exist_ok=True)
+OUT='/tmp/neu%s_%s_out'%(rnd,pid)
+EXTRA='' if not rnd else """ This is the SECOND round of such changes for this property. The first round already used: changed error/log texts and sentinels, random or different start values of identifiers and counters, different allocation / iteration order, helpers extracted or inlined, loops restructured, table lookups, unreachable defensive checks, rejecting malformed input earlier. Be different this time; think of: batching or coalescing of work, caching or memoisation with correct invalidation, lazy instead of eager initialisation (or the reverse), a different-but-equivalent wire or storage encoding where the property allows one (option order the property does not fix, padding, optional fields, an extra backward-compatible field in a persisted record), different timer / retry / capacity constants inside the bounds the property states, a different internal key or id format, a different lock granularity that still serialises what must be serialised, moving a validation to a different (still early enough) place, performing two independent side effects in the other order, returning a more specific error class, making an operation idempotent where it previously returned an error the property does not require."""
+print(f"""You are helping to measure the FALSE-ALARM rate of a verification suite for a Go repository (veesix-networks/osvbng, an open-source virtual Broadband Network Gateway). You have your own scratch git worktree of the repository at {wt} (work ONLY there and in {OUT}; never touch /repo or /verif, and do not read anything under /verif).
 
 The semantic property the suite checks:
 
@@ -22,9 +25,9 @@ Task: produce THREE different, independent, realistic changes to the repository'
   1. an INTERNAL rewrite with identical external behaviour: a different data structure or algorithm (map instead of slice, precomputed table, loop restructured, helper extracted/inlined, early-return reordering of independent checks, lock taken through defer instead of explicit unlock, a fast path for a common case);
   2. a change of a CHOICE THE PROPERTY LEAVES FREE: which of several admissible answers is returned (e.g. allocation order, which free slot/id is picked, iteration order, tie-breaking the property does not fix, the text of an error or log message, a default that the property does not mention, extra diagnostics/counters, timing constants the property does not depend on);
   3. a STRENGTHENING or hardening: an additional validation that rejects only inputs the property already says must be rejected (or that can never occur), an extra defensive check, an extra invariant assertion that cannot fire, tightening that stays inside what the property allows.
-Produce one change of each kind if the anchored code allows it. Keep the signatures of existing functions, methods, types and struct fields (exported and unexported) unchanged unless the change genuinely needs otherwise — adding new helpers/fields is fine. Each change should be a few to a few dozen lines.
+Produce one change of each kind if the anchored code allows it.{EXTRA} Keep the signatures of existing functions, methods, types and struct fields (exported and unexported) unchanged unless the change genuinely needs otherwise — adding new helpers/fields is fine. Each change should be a few to a few dozen lines.
 
-For each change k in {{1,2,3}} write into /tmp/neu_{pid}_out/k/ :
+For each change k in {{1,2,3}} write into {OUT}/k/ :
   - patch.diff : `git diff` of the change against the worktree's HEAD (only non-test source files; must apply cleanly with `git apply`)
   - README.md : what the change does, which kind (1/2/3) it is, what observable or internal behaviour differs from before, and a careful ARGUMENT, clause by clause of the property statement, why the property still holds for every input/history/schedule it quantifies over. If you are not sure the property is preserved, do not submit that change — pick another.
 
